@@ -824,6 +824,14 @@ fn sched_point_op(kind: PointKind, label: &'static str, obj: usize, class: u8) {
     })
     .unwrap_or(false);
     if take && !std::thread::panicking() {
+        // (trace only: must not advance the logical clock, or traced and untraced runs would differ)
+        let who = shuttle_me_or_none();
+        with_exec(|e| {
+            if e.cfg.keep_trace {
+                let (lc, now) = (e.lc, e.now);
+                e.trace.push((lc, now, who, format!("point {label}")));
+            }
+        });
         shuttle::thread::yield_now();
     }
 }
